@@ -53,8 +53,8 @@ def run(tier, seed):
     cases.append(Case('getters', 'crypto', 'zzC09_getters', [], opts={'setup': GB, 'big_len_set': set([32, 31])}))
     for n in (0, 1, 2, 3):
         for sl in (0, 47, 48, 49):
-            for shape in (0, 1, 2, 3):
-                if (shape and sl != 48) or (n == 0 and (shape or sl != 48)) or (n == 3 and not thorough and shape):
+            for shape in (0, 1, 2, 3, 4, 5):
+                if (shape and sl != 48) or (n == 0 and (shape or sl != 48)) or (n == 3 and not thorough and shape in (1, 2, 3)):
                     continue
                 cases.append(Case('agg_n%d_l%d_s%d' % (n, sl, shape), 'crypto', 'zzC09_aggregate', [n, sl, shape], opts={'setup': GA}))
     for ns in (0, 1, 2, 3):
